@@ -57,7 +57,7 @@ def predict(op):
 def mk(kind, framing, ops):
     return {'property': ID, 'harness': 'cli', 'client': {'kind': kind, 'framing': framing,
                                                          'kwargs': {'timeout': 1.0, 'retries': 0}},
-            'callers': [ops], 'cpu_step': 1e-4, 'sched': {'tail_seed': 1},
+            'callers': [ops], 'cpu_step': 1e-5, 'sched': {'tail_seed': 1},
             'real_server': {'timeout': 0.01, 'size': 2200}}
 
 
@@ -127,6 +127,8 @@ def execute(scn):
     timeout = c['kwargs']['timeout']
     ops = scn['callers'][0]
     sig0 = {'property': ID, 'framing': framing}
+    if framing == 'binary' and any(cc.frame_has_delim('binary', op.get('unit', 1), cli.request_pdu(op)) for op in ops):
+        sig0['binary_delim'] = True
 
     def add(cls, msg, **kv):
         out['violations'].append({'sig': dict(sig0, **dict({'class': cls}, **kv)), 'msg': msg})
@@ -153,9 +155,7 @@ def execute(scn):
         is_exc = bool(pdu[0] & 0x80)
         rtype = 'exception' if is_exc else 'normal'
         if framing == 'binary' and (0x7B in srv_tx[1:-1] or 0x7D in srv_tx[1:-1]):
-            sig0['binary_delim'] = True
-        else:
-            sig0.pop('binary_delim', None)
+            sig0['binary_delim'] = True     # sticky: a mis-sized reply leaves bytes behind for the next call
         got = b''.join(d for (_, d) in cli_rx)
         dur = call['t1'] - call['t0']
         # prediction vs PDU on the wire (normal replies)
